@@ -351,6 +351,26 @@ pub fn gen_fault_then_fair(seed: u64, params: &Params) -> Scenario {
         }
         s.traffic[i].stop_ns = fault_ns + rng.range(0, 3) * SEC;
     }
+    // Reliable packets spaced so that their parent leads sit on the datagram-header thresholds
+    // (one small Reliable packet every 126..130 / 254..257 ids, submitted in bursts so that the
+    // previous one is still unacknowledged)
+    let mut r2 = Rng::new(seed ^ 0x9e11);
+    if r2.chance(0.15) {
+        s.window = 4096;
+        for t in s.traffic.iter_mut() {
+            if t.total > 0 {
+                t.pattern = 1;
+                t.amb_p = 0.0;
+                t.total = t.total.max(700);
+                t.per_step_p = 1.0;
+                t.burst = (50, *r2.pick(&[200u64, 1000]));
+            }
+        }
+        for c in s.cfg.iter_mut() {
+            c.rx_alloc = c.rx_alloc.max(100_000);
+            c.max_send_rate = c.max_send_rate.max(500_000);
+        }
+    }
     s.horizon_ns = fault_ns + 6 * 3600 * SEC;
     s
 }
